@@ -648,12 +648,12 @@ def parts(tier):
         SMT("cmp_percent_default", "vflib.props.c05:kernel_comparators", {"K": 64, "W": 8, "timeout": 1500, "cross_check": True, "kinds": ["percent_default", "any_default"]}, timeout=4000),
         SMT("cmp_any", "vflib.props.c05:kernel_comparators", {"K": 64, "W": 8, "timeout": 1500, "cross_check": True, "kinds": ["any", "any_only_percent"]}, timeout=6000),
         SMT("cmp_percent_as_constructed", "vflib.props.c05:kernel_percent_concrete", {"K": 64, "W": 8, "timeout": 120, "all": True}, timeout=6000),
-        CH("table5", "vflib.props.c05:scen_table", {"models": 5, "wraps": False}, shards=16, timeout=250, path_timeout=30),
-        CH("table4wraps", "vflib.props.c05:scen_table", {"models": 4, "wraps": True}, shards=16, timeout=250, path_timeout=30),
-        CH("table6_flat", "vflib.props.c05:scen_table", {"models": 6, "flat_only": True}, shards=16, timeout=250, path_timeout=30),
-        CH("table2x2rounds", "vflib.props.c05:scen_table", {"models": 2, "rounds": 2, "wraps": True}, shards=2, timeout=250, path_timeout=30),
-        CH("table3x2rounds", "vflib.props.c05:scen_table", {"models": 3, "rounds": 2, "wraps": False}, shards=6, timeout=250, path_timeout=30),
-        CH("real", "vflib.props.c05:scen_real", {"keys": 4}, shards=8, timeout=250, path_timeout=30),
+        CH("table5", "vflib.props.c05:scen_table", {"models": 5, "wraps": False}, shards=16, timeout=150, path_timeout=30),
+        CH("table4wraps", "vflib.props.c05:scen_table", {"models": 4, "wraps": True}, shards=16, timeout=150, path_timeout=30),
+        CH("table6_flat", "vflib.props.c05:scen_table", {"models": 6, "flat_only": True}, shards=16, timeout=150, path_timeout=30),
+        CH("table2x2rounds", "vflib.props.c05:scen_table", {"models": 2, "rounds": 2, "wraps": True}, shards=2, timeout=150, path_timeout=30),
+        CH("table3x2rounds", "vflib.props.c05:scen_table", {"models": 3, "rounds": 2, "wraps": False}, shards=6, timeout=150, path_timeout=30),
+        CH("real", "vflib.props.c05:scen_real", {"keys": 4}, shards=8, timeout=150, path_timeout=30),
     ]
 
 
